@@ -178,6 +178,14 @@ fn lit(n: usize, kind: u8, m: u32) -> (Soes, bool) {
     if kind == 1 {
         return (Soes::one(n), true);
     }
+    if kind == 4 {
+        // a one-term Soes whose term is the constant-zero exclusive cube (only from_cubes can build it;
+        // the mask is concrete, so from_cubes' scan of the variables is cheap)
+        return (Soes::from_cubes(n, vec![Ecube::zero()]), false);
+    }
+    if kind == 5 {
+        return (Soes::from_cubes(n, vec![Ecube::one(), Ecube::zero()]), true);
+    }
     let i: usize = kani::any();
     kani::assume(i < n);
     if kind == 2 {
